@@ -17,8 +17,8 @@ CONSTANTS NLines, Fuel, Tset
 A == Var("A", "A", "")
 B == Var("B", "B", "")
 I == Var("I", "I", "")
-L1 == 10   L2 == 20   L3 == 30
-LineNos == <<10, 20, 30, 40>>
+L1 == 0   L2 == 20   L3 == 30
+LineNos == <<0, 20, 30, 40>>
 PA == SPrint(<<PE(A), PSep(";")>>)
 PS(s) == SPrint(<<PE(LStr(s)), PSep(";")>>)
 
@@ -52,7 +52,8 @@ RunCmd == CDirect(<<SRun(-1)>>)
 \* Map(t, n) = the line number of L that a line number reported by T(L) stands for
 Transforms(p) ==
   { [k |-> "id"] }
-  \cup { [k |-> "rem", at |-> n] : n \in {5, 15, 25, 35} }
+  \cup { [k |-> "rem", at |-> n] : n \in {10, 25, 35, 45} }
+  \cup { [k |-> "fornext", at |-> n] : n \in {10, 25} }
   \cup { [k |-> "tail"] }
   \cup { [k |-> "split", i |-> i, at |-> j] : i \in {x \in 1..NLines : ~HasIf(p[x])}, j \in 1..2 }
   \cup { [k |-> "direct", i |-> i, bg |-> bg] : i \in {x \in 1..NLines : DirectOK(p[x])}, bg \in {0, 1} }
@@ -60,7 +61,9 @@ Background == << CLine(100, <<PS(<<90>>), SGoto(120)>>), CLine(110, <<SData(<<Mk
 Cmds(p, t) ==
   CASE t.k = "id" -> Listing(p) \o <<RunCmd>>
     [] t.k = "rem" -> Listing(p) \o <<CLine(t.at, <<SRem>>), RunCmd>>
-    [] t.k = "tail" -> Listing(p) \o <<CLine(45, <<SEnd>>), CLine(50, <<PS(<<85>>), SGoto(10)>>), RunCmd>>
+    \* a line with its own local labels (a complete loop over a variable of its own) between the lines
+    [] t.k = "fornext" -> Listing(p) \o <<CLine(t.at, <<SFor(Var("Z","Z",""), LI(1), LI(1)), SNext(<<>>)>>), RunCmd>>
+    [] t.k = "tail" -> Listing(p) \o <<CLine(45, <<SEnd>>), CLine(50, <<PS(<<85>>), SGoto(L1)>>), RunCmd>>
     [] t.k = "split" ->
          (IF t.at >= Len(p[t.i]) THEN Listing(p)
           ELSE [x \in 1..NLines |-> IF x = t.i THEN CLine(LineNos[x], SubSeq(p[x], 1, t.at)) ELSE CLine(LineNos[x], p[x])]
@@ -70,6 +73,7 @@ Cmds(p, t) ==
 RefCmds(p, t) ==
   CASE t.k = "tail" -> Listing(p) \o <<CLine(45, <<SEnd>>), RunCmd>>
     [] t.k = "direct" -> <<CLine(10, p[t.i]), RunCmd>>
+    [] t.k = "fornext" -> Listing(p) \o <<RunCmd>>
     [] OTHER -> Listing(p) \o <<RunCmd>>
 Map(t, n) == IF t.k = "split" /\ n = LineNos[t.i] + 5 THEN LineNos[t.i]
              ELSE IF t.k = "direct" /\ n = 10 THEN -1 ELSE n
@@ -95,9 +99,11 @@ SawOom(resp) == \E i \in 1..Len(resp) : resp[i].k = "err" /\ \E e \in resp[i].er
 LayoutInvariant ==
   tr.k # "none" =>
     LET a == Final(Cmds(prog, tr))  b == Final(RefCmds(prog, tr)) IN
-    (a.mode # "oom" /\ b.mode # "oom") =>
+    \* (runs that exhaust a memory pool are compared only as far as neither does: a layout change
+    \* may legitimately move the point where the pool overflows)
+    (a.mode # "oom" /\ b.mode # "oom" /\ ~SawOom(a.resp) /\ ~SawOom(b.resp)) =>
        /\ MapResp(tr, a.resp) = MapResp(tr, b.resp)
-       /\ a.vars = b.vars
+       /\ LET NoZ(v) == [k \in {x \in DOMAIN v : x[2] # "Z"} |-> v[k]] IN NoZ(a.vars) = NoZ(b.vars)
 EmitSess == tr.k # "none" =>
           LET a == Final(Cmds(prog, tr)) IN
           PrintT(ToJson([R |-> "sess", cmds |-> Cmds(prog, tr), oom |-> (a.mode = "oom" \/ SawOom(a.resp)), t |-> tr.k]))
